@@ -163,6 +163,9 @@ class FileMover:
         if not override and os.path.lexists(destination_path):
             raise DestinationAlreadyExistsError(source_path, destination_path)
         destination_path.parent.mkdir(parents=True, exist_ok=True)
+        # A destination like 'new_dir/../name' cannot be seen before 'new_dir' has been created
+        if not override and os.path.lexists(destination_path):
+            raise DestinationAlreadyExistsError(source_path, destination_path)
         shutil.move(str(source_path), destination_path)
 
 
